@@ -360,6 +360,48 @@ pub fn run(ctx: &Ctx) -> i32 {
             conform(ctx, "payloads", &case, &f, &w);
         });
     }
+    // the record after a cel of every kind: raw, compressed, linked, tilemap
+    if ctx.wants_family("cel-kinds") {
+        let kinds = ["raw", "zlib", "linked", "tilemap"];
+        let cases: Vec<(usize, usize, u8)> = (0..kinds.len()).flat_map(|a| (0..kinds.len()).flat_map(move |b| (0..4u8).map(move |sh| (a, b, sh)))).collect();
+        ctx.family("cel-kinds", cases.len() as u64, "two cels of every pair of kinds {raw, compressed, linked, tilemap} on two layers of a second frame, each followed by a user-data record of each of 4 payload shapes; every cel must report exactly its own record", true);
+        cases.par_iter().for_each(|(a, b, sh)| {
+            let case = || format!("kinds=({},{}) payload={}", kinds[*a], kinds[*b], sh);
+            if !ctx.wants("cel-kinds", &case) {
+                return;
+            }
+            let fmt = Fmt::Rgba;
+            let mut f = gen::file(2, 2, &fmt, &[10, 20]);
+            f.frames[0].push(Body::Tileset(tileset(0, 2, 1, 1, tile_pixels(&fmt, 2, 1, 1, 2, (0, 0)), "t")));
+            for (li, k) in [*a, *b].iter().enumerate() {
+                f.frames[0].push(Body::Layer(if *k == 3 { Layer::tilemap(&format!("l{}", li), 0) } else { Layer::image(&format!("l{}", li)) }));
+            }
+            // frame 0: the link targets (a cel of the layer's own kind)
+            for (li, k) in [*a, *b].iter().enumerate() {
+                f.frames[0].push(if *k == 3 { tm_cel(li as u16, 0, 0, 255, 1, 1, vec![1]) } else { raw_cel(li as u16, 0, 0, 255, 1, 1, vec![1, 2, 3, 4]) });
+            }
+            let mut nrec = 0u8;
+            for (li, k) in [*a, *b].iter().enumerate() {
+                let cel = match *k {
+                    0 => raw_cel(li as u16, 1, 0, 255, 1, 1, vec![5, 6, 7, 8]),
+                    1 => zcel(li as u16, 1, 0, 255, 1, 1, vec![5, 6, 7, 8], 6),
+                    2 => link_cel(li as u16, 0, 0, 255, 0),
+                    _ => tm_cel(li as u16, 1, 1, 255, 1, 1, vec![1]),
+                };
+                f.frames[1].push(cel);
+                let text = format!("rec{}", nrec);
+                let col = [nrec + 1, 9, 8, 7];
+                f.frames[1].push(Body::UserData(match sh {
+                    0 => UserData::none(),
+                    1 => UserData::text(&text),
+                    2 => UserData::color(col),
+                    _ => UserData::both(&text, col),
+                }));
+                nrec += 1;
+            }
+            conform(ctx, "cel-kinds", &case, &f, &want);
+        });
+    }
     ctx.sample(json!({"history": "[Tags, Ignorable, Ud(4), Palette, Ud(4), Ud(4)]", "meaning": "tags(2) chunk, an ignorable chunk, a record (-> tag 0), a new palette chunk, a record (-> tag 1); the 3rd record is disabled in the model (more records than tags) so this history has length 5 at most"}));
     ctx.sample(json!({"history": "[Cel, Ud(4), NextFrame, Cel, Legacy04, Ud(4)]", "meaning": "cel (0,0) gets record u0; in frame 1 a cel, then a legacy palette chunk; record u1 goes to the sprite, not to cel (1,0)"}));
     ctx.note("the 'randomly beyond' clause of the quantifier is sampling and is not claimed");
